@@ -82,7 +82,10 @@ def exotic_oracle(rep, types):
     for t in types:
         if "TUser" in repr(t):
             continue
+        in_union = "TUnion" in repr(t)
         for name, make in exo:
+            if in_union and name in lg.ONE_SHOT:
+                continue            # a union case that fails has already consumed (part of) a one-shot iterable: not a value
             for m in lg.MODES:
                 s = lg.run_exotic(rts[(True, m)], t, make)
                 l = lg.run_exotic(rts[(False, m)], t, make)
